@@ -53,12 +53,18 @@ pub trait Kind: Frame + PartialEq + std::fmt::Debug + 'static {
     const NAME: &'static str;
     const N: usize;
     const FLOAT: bool;
+    /// add_amp of two signals of this same frame type is possible (Signed = Self)
+    const HAS_ADD: bool;
     fn to_o(s: Self::Sample) -> Self::O;
     fn of_o(o: Self::O) -> Self::Sample;
     fn tok(o: Self::O) -> String;
     fn amp_tok(p: i32) -> String;
-    /// value number `i` of the kind's grid (ints: i, f64: i/16)
+    /// sample number `i` of the kind's grid (ints: i, floats: i/16, unsigned: equilibrium + i)
     fn grid(i: i64) -> Self::O;
+    /// signed amount number `i` (offsets, thresholds, steps)
+    fn delta(i: i64) -> Self::O;
+    /// sample plus signed amount
+    fn o_shift(a: Self::O, k: Self::O) -> Self::O;
     // plain arithmetic of the oracle and of the user closures
     fn o_add(a: Self::O, b: Self::O) -> Self::O;
     fn o_sub(a: Self::O, b: Self::O) -> Self::O;
@@ -90,6 +96,9 @@ macro_rules! int_kind {
             const NAME: &'static str = $name;
             const N: usize = $n;
             const FLOAT: bool = false;
+            const HAS_ADD: bool = true;
+            fn delta(i: i64) -> i64 { i }
+            fn o_shift(a: i64, k: i64) -> i64 { a + k }
             fn to_o(s: $S) -> i64 { s as i64 }
             fn of_o(o: i64) -> $S { assert!(o >= <$S>::MIN as i64 && o <= <$S>::MAX as i64, "harness value out of range"); o as $S }
             fn tok(o: i64) -> String { o.to_string() }
@@ -124,6 +133,9 @@ impl Kind for f64 {
     const NAME: &'static str = "d1";
     const N: usize = 1;
     const FLOAT: bool = true;
+    const HAS_ADD: bool = true;
+    fn delta(i: i64) -> f64 { i as f64 / 16.0 }
+    fn o_shift(a: f64, k: f64) -> f64 { a + k }
     fn to_o(s: f64) -> f64 { s }
     fn of_o(o: f64) -> f64 { o }
     fn tok(o: f64) -> String { format!("{:016x}", o.to_bits()) }
@@ -143,6 +155,65 @@ impl Kind for f64 {
     fn scale_pc<'a>(a: Dyn<'a, Self>, ps: &[i32]) -> Dyn<'a, Self> { Dyn(Box::new(a.scale_amp_per_channel(ps[0] as f64 / 4.0))) }
     fn offset_pc<'a>(a: Dyn<'a, Self>, ks: &[f64]) -> Dyn<'a, Self> { Dyn(Box::new(a.offset_amp_per_channel(ks[0]))) }
     fn clip<'a>(a: Dyn<'a, Self>, t: f64) -> Dyn<'a, Self> { Dyn(Box::new(a.clip_amp(t))) }
+}
+
+impl Kind for [f32; 2] {
+    type O = f32;
+    const NAME: &'static str = "g2";
+    const N: usize = 2;
+    const FLOAT: bool = true;
+    const HAS_ADD: bool = true;
+    fn delta(i: i64) -> f32 { i as f32 / 16.0 }
+    fn o_shift(a: f32, k: f32) -> f32 { a + k }
+    fn to_o(s: f32) -> f32 { s }
+    fn of_o(o: f32) -> f32 { o }
+    fn tok(o: f32) -> String { format!("{:08x}", o.to_bits()) }
+    fn amp_tok(p: i32) -> String { Self::tok(p as f32 / 4.0) }
+    fn grid(i: i64) -> f32 { i as f32 / 16.0 }
+    fn o_add(a: f32, b: f32) -> f32 { a + b }
+    fn o_sub(a: f32, b: f32) -> f32 { a - b }
+    fn o_neg(a: f32) -> f32 { -a }
+    fn o_lin(a: f32, i: u64, b: f32) -> f32 { a + i as f32 * b }
+    fn o_scale(a: f32, p: i32) -> f32 { a * (p as f32 / 4.0) }
+    fn o_mul(a: f32, b: f32) -> f32 { a * b }
+    fn o_clip(t: f32, a: f32) -> f32 { if a > t { t } else if a < -t { -t } else { a } }
+    fn add<'a>(a: Dyn<'a, Self>, b: Dyn<'a, Self>) -> Dyn<'a, Self> { Dyn(Box::new(a.add_amp(b))) }
+    fn mul<'a>(a: Dyn<'a, Self>, b: Dyn<'a, Self>) -> Dyn<'a, Self> { Dyn(Box::new(a.mul_amp(b))) }
+    fn scale<'a>(a: Dyn<'a, Self>, p: i32) -> Dyn<'a, Self> { Dyn(Box::new(a.scale_amp(p as f32 / 4.0))) }
+    fn offset<'a>(a: Dyn<'a, Self>, k: f32) -> Dyn<'a, Self> { Dyn(Box::new(a.offset_amp(k))) }
+    fn scale_pc<'a>(a: Dyn<'a, Self>, ps: &[i32]) -> Dyn<'a, Self> { Dyn(Box::new(a.scale_amp_per_channel([ps[0] as f32 / 4.0, ps[1] as f32 / 4.0]))) }
+    fn offset_pc<'a>(a: Dyn<'a, Self>, ks: &[f32]) -> Dyn<'a, Self> { Dyn(Box::new(a.offset_amp_per_channel([ks[0], ks[1]]))) }
+    fn clip<'a>(a: Dyn<'a, Self>, t: f32) -> Dyn<'a, Self> { Dyn(Box::new(a.clip_amp(t))) }
+}
+
+/// unsigned samples: Signed = i16, Float = f32, equilibrium 32768; offsets / thresholds are i16 amounts
+impl Kind for [u16; 2] {
+    type O = i64;
+    const NAME: &'static str = "w2";
+    const N: usize = 2;
+    const FLOAT: bool = false;
+    const HAS_ADD: bool = false;
+    fn delta(i: i64) -> i64 { i }
+    fn o_shift(a: i64, k: i64) -> i64 { a + k }
+    fn to_o(s: u16) -> i64 { s as i64 }
+    fn of_o(o: i64) -> u16 { assert!((0..=65535).contains(&o), "harness value out of range"); o as u16 }
+    fn tok(o: i64) -> String { o.to_string() }
+    fn amp_tok(p: i32) -> String { p.to_string() }
+    fn grid(i: i64) -> i64 { 32768 + i }
+    fn o_add(a: i64, b: i64) -> i64 { a + b - 32768 }
+    fn o_sub(a: i64, b: i64) -> i64 { a - b + 32768 }
+    fn o_neg(a: i64) -> i64 { 65536 - a }
+    fn o_lin(a: i64, i: u64, b: i64) -> i64 { a + i as i64 * b }
+    fn o_scale(a: i64, p: i32) -> i64 { 32768 + ((a - 32768) * p as i64 / 4).clamp(-32768, 32767) }
+    fn o_mul(_: i64, _: i64) -> i64 { unreachable!() }
+    fn o_clip(t: i64, a: i64) -> i64 { 32768 + (a - 32768).clamp(-t, t) }
+    fn add<'a>(_: Dyn<'a, Self>, _: Dyn<'a, Self>) -> Dyn<'a, Self> { unreachable!("add_amp on [u16;2] takes an [i16;2] signal") }
+    fn mul<'a>(_: Dyn<'a, Self>, _: Dyn<'a, Self>) -> Dyn<'a, Self> { unreachable!() }
+    fn scale<'a>(a: Dyn<'a, Self>, p: i32) -> Dyn<'a, Self> { Dyn(Box::new(a.scale_amp(p as f32 / 4.0))) }
+    fn offset<'a>(a: Dyn<'a, Self>, k: i64) -> Dyn<'a, Self> { Dyn(Box::new(a.offset_amp(k as i16))) }
+    fn scale_pc<'a>(a: Dyn<'a, Self>, ps: &[i32]) -> Dyn<'a, Self> { Dyn(Box::new(a.scale_amp_per_channel([ps[0] as f32 / 4.0, ps[1] as f32 / 4.0]))) }
+    fn offset_pc<'a>(a: Dyn<'a, Self>, ks: &[i64]) -> Dyn<'a, Self> { Dyn(Box::new(a.offset_amp_per_channel([ks[0] as i16, ks[1] as i16]))) }
+    fn clip<'a>(a: Dyn<'a, Self>, t: i64) -> Dyn<'a, Self> { Dyn(Box::new(a.clip_amp(t as i16))) }
 }
 
 // ------------------------------------------------------------------------------------------
@@ -272,7 +343,7 @@ fn build<'a, K: Kind>(t: &Tr<K::O>, hole: &mut Option<Dyn<'a, K>>, inst: &mut In
                 K::frame(&v)
             }), inst)
         }
-        Ma(k, s) => { let k = *k; let s = build(s, hole, inst); Dyn(Box::new(s.map(move |f: K| vmap(f, |x| K::o_add(x, k))))) }
+        Ma(k, s) => { let k = *k; let s = build(s, hole, inst); Dyn(Box::new(s.map(move |f: K| vmap(f, |x| K::o_shift(x, k))))) }
         Mr(s) => { let s = build(s, hole, inst); Dyn(Box::new(s.map(|f: K| { let mut v = K::unframe(f); v.reverse(); K::frame(&v) }))) }
         Mn(s) => { let s = build(s, hole, inst); Dyn(Box::new(s.map(|f: K| vmap(f, K::o_neg)))) }
         Z(c, a, b) => {
@@ -325,16 +396,16 @@ fn den<K: Kind>(t: &Tr<K::O>, hole: Option<&Den<K::O>>, h: usize) -> Den<K::O> {
         Eq => Den { fr: pad(vec![]), len: None },
         Gc(f) => Den { fr: (0..h).map(|_| f.clone()).collect(), len: None },
         Gm(a, b) => Den { fr: (0..h).map(|i| a.iter().zip(b.iter()).map(|(&x, &y)| K::o_lin(x, i as u64, y)).collect()).collect(), len: None },
-        Ma(k, s) => un(s, &|f| f.iter().map(|&x| K::o_add(x, *k)).collect()),
+        Ma(k, s) => un(s, &|f| f.iter().map(|&x| K::o_shift(x, *k)).collect()),
         Mr(s) => un(s, &|f| f.iter().rev().cloned().collect()),
         Mn(s) => un(s, &|f| f.iter().map(|&x| K::o_neg(x)).collect()),
         Z(c, a, b) => bin(a, b, &|p, q| match c { 0 => K::o_add(p, q), 1 => K::o_sub(p, q), 2 => p, _ => q }),
         Add(a, b) => bin(a, b, &|p, q| K::o_add(p, q)),
         Mul(a, b) => bin(a, b, &|p, q| K::o_mul(p, q)),
         Sc(p, s) => un(s, &|f| f.iter().map(|&x| K::o_scale(x, *p)).collect()),
-        Of(k, s) => un(s, &|f| f.iter().map(|&x| K::o_add(x, *k)).collect()),
+        Of(k, s) => un(s, &|f| f.iter().map(|&x| K::o_shift(x, *k)).collect()),
         Scp(ps, s) => un(s, &|f| f.iter().zip(ps.iter()).map(|(&x, &p)| K::o_scale(x, p)).collect()),
-        Ofp(ks, s) => un(s, &|f| f.iter().zip(ks.iter()).map(|(&x, &k)| K::o_add(x, k)).collect()),
+        Ofp(ks, s) => un(s, &|f| f.iter().zip(ks.iter()).map(|(&x, &k)| K::o_shift(x, k)).collect()),
         Cl(t, s) => un(s, &|f| f.iter().map(|&x| K::o_clip(*t, x)).collect()),
         Ins(s) => den::<K>(s, hole, h),
         Dl(k, s) => { let d = den::<K>(s, hole, h); let mut fr = vec![eq.clone(); *k]; fr.extend(d.fr); Den { fr: pad(fr), len: d.len.map(|l| l + k) } }
@@ -589,12 +660,14 @@ struct G<'r> { rng: &'r mut Rng, budget: usize, explicit_e: bool }
 
 fn val<K: Kind>(rng: &mut Rng, lim: i64) -> K::O { K::grid(rng.range(-lim, lim)) }
 fn fr<K: Kind>(rng: &mut Rng, lim: i64) -> Vec<K::O> { (0..K::N).map(|_| val::<K>(rng, lim)).collect() }
+fn dl<K: Kind>(rng: &mut Rng, lim: i64) -> K::O { K::delta(rng.range(-lim, lim)) }
+fn dfr<K: Kind>(rng: &mut Rng, lim: i64) -> Vec<K::O> { (0..K::N).map(|_| dl::<K>(rng, lim)).collect() }
 
 fn gen_src<K: Kind>(g: &mut G) -> Tr<K::O> {
     let r = g.rng.below(100);
     if r < 38 { let l = g.rng.usize_below(13); Fi((0..l).map(|_| fr::<K>(g.rng, 50)).collect()) }
     else if r < 70 { let l = g.rng.usize_below(13) * K::N + g.rng.usize_below(K::N); Fs((0..l).map(|_| val::<K>(g.rng, 50)).collect()) }
-    else if r < 82 { Gm(fr::<K>(g.rng, 20), fr::<K>(g.rng, 3)) }
+    else if r < 82 { Gm(fr::<K>(g.rng, 20), dfr::<K>(g.rng, 3)) }
     else if r < 91 { Gc(fr::<K>(g.rng, 50)) }
     else { Eq }
 }
@@ -605,14 +678,14 @@ fn amp<K: Kind>(rng: &mut Rng) -> i32 { if K::FLOAT { rng.range(-8, 8) as i32 } 
 fn gen_un<K: Kind>(g: &mut G, s: Tr<K::O>) -> Tr<K::O> {
     let s = Box::new(s);
     match g.rng.below(10) {
-        0 => Ma(val::<K>(g.rng, 20), s),
+        0 => Ma(dl::<K>(g.rng, 20), s),
         1 => Mr(s),
         2 => Mn(s),
         3 => Sc(amp::<K>(g.rng), s),
-        4 => Of(val::<K>(g.rng, 20), s),
+        4 => Of(dl::<K>(g.rng, 20), s),
         5 => Scp((0..K::N).map(|_| amp::<K>(g.rng)).collect(), s),
-        6 => Ofp(fr::<K>(g.rng, 20), s),
-        7 => Cl(K::grid(g.rng.range(0, 40)), s),
+        6 => Ofp(dfr::<K>(g.rng, 20), s),
+        7 => Cl(K::delta(g.rng.range(0, 40)), s),
         8 => Ins(s),
         _ => Dl(g.rng.usize_below(5), s),
     }
@@ -620,7 +693,7 @@ fn gen_un<K: Kind>(g: &mut G, s: Tr<K::O>) -> Tr<K::O> {
 
 fn gen_bin<K: Kind>(g: &mut G, a: Tr<K::O>, c: Tr<K::O>) -> Tr<K::O> {
     let (a, c) = (Box::new(a), Box::new(c));
-    let n = if K::FLOAT { 7 } else { 5 };
+    let n = if K::FLOAT { 7 } else if K::HAS_ADD { 5 } else { 4 };
     match g.rng.below(n) { k @ 0..=3 => Z(k as u8, a, c), 4 => Add(a, c), 5 => Mul(a, c), _ => Add(a, c) }
 }
 
@@ -689,21 +762,23 @@ fn script_exhaust<K: Kind>(g: &mut G, base: &Tr<K::O>) -> Vec<Op<K::O>> {
 /// all trees of depth <= 2 over the adaptor alphabet (parameters and source contents drawn once per node)
 fn enumerate<K: Kind>(g: &mut G, full: bool) -> Vec<Tr<K::O>> {
     let srcs = |g: &mut G| -> Vec<Tr<K::O>> {
-        let l1 = g.rng.usize_below(5); let l2 = g.rng.usize_below(5) * K::N + g.rng.usize_below(K::N);
-        let mut v = vec![Fi((0..l1).map(|_| fr::<K>(g.rng, 50)).collect()), Fs((0..l2).map(|_| val::<K>(g.rng, 50)).collect()), Gm(fr::<K>(g.rng, 20), fr::<K>(g.rng, 3))];
+        // fixed, different lengths: 3 frames from the frame iterator, 2 frames (+ an incomplete one) from the sample iterator
+        let l1 = 3; let l2 = 2 * K::N + (K::N - 1);
+        let mut v = vec![Fi((0..l1).map(|_| fr::<K>(g.rng, 50)).collect()), Fs((0..l2).map(|_| val::<K>(g.rng, 50)).collect()), Gm(fr::<K>(g.rng, 20), dfr::<K>(g.rng, 3))];
         if full { v.push(Eq); v.push(Gc(fr::<K>(g.rng, 50))); }
         v
     };
     let uns = |g: &mut G, s: &Tr<K::O>| -> Vec<Tr<K::O>> {
         let s = || Box::new(s.clone());
-        let mut v = vec![Ma(val::<K>(g.rng, 20), s()), Sc(amp::<K>(g.rng), s()), Of(val::<K>(g.rng, 20), s()), Scp((0..K::N).map(|_| amp::<K>(g.rng)).collect(), s()),
-                         Ofp(fr::<K>(g.rng, 20), s()), Cl(K::grid(g.rng.range(0, 40)), s()), Ins(s()), Dl(1 + g.rng.usize_below(3), s())];
+        let mut v = vec![Ma(dl::<K>(g.rng, 20), s()), Sc(amp::<K>(g.rng), s()), Of(dl::<K>(g.rng, 20), s()), Scp((0..K::N).map(|_| amp::<K>(g.rng)).collect(), s()),
+                         Ofp(dfr::<K>(g.rng, 20), s()), Cl(K::delta(g.rng.range(0, 40)), s()), Ins(s()), Dl(1 + g.rng.usize_below(3), s())];
         if full { v.push(Mr(s())); v.push(Mn(s())); v.push(Dl(0, s())); }
         v
     };
     let bins = |a: &Tr<K::O>, c: &Tr<K::O>| -> Vec<Tr<K::O>> {
         let (a, c) = (|| Box::new(a.clone()), || Box::new(c.clone()));
-        let mut v = vec![Z(0, a(), c()), Add(a(), c())];
+        let mut v = vec![Z(0, a(), c())];
+        if K::HAS_ADD { v.push(Add(a(), c())); }
         if K::FLOAT { v.push(Mul(a(), c())); }
         if full { v.push(Z(1, a(), c())); v.push(Z(2, a(), c())); v.push(Z(3, a(), c())); }
         v
@@ -773,12 +848,14 @@ fn main() {
     if stream != "adapt" && stream != "exhaust" { eprintln!("unknown stream {}", stream); std::process::exit(2); }
     let mut st = Stream::new(&a.out, &stream);
     let mut rng = Rng::new(a.seed, &stream);
-    let (n, d) = if a.thorough() { (12_000, 10) } else { (1_500, 6) };
+    let (n, d) = if a.thorough() { (10_000, 10) } else { (1_200, 6) };
     // quick: reduced-alphabet enumeration for two kinds; thorough: full alphabet for one integer kind and f64, reduced for the rest
     run_stream::<f64>(&mut st, &stream, &mut rng, n, d, Some(a.thorough()));
     run_stream::<[i32; 2]>(&mut st, &stream, &mut rng, n, d, Some(a.thorough()));
     run_stream::<[i16; 2]>(&mut st, &stream, &mut rng, n, d, if a.thorough() { Some(false) } else { None });
     run_stream::<[i32; 3]>(&mut st, &stream, &mut rng, n, d, if a.thorough() { Some(false) } else { None });
+    run_stream::<[f32; 2]>(&mut st, &stream, &mut rng, n, d, if a.thorough() { Some(false) } else { None });
+    run_stream::<[u16; 2]>(&mut st, &stream, &mut rng, n, d, if a.thorough() { Some(false) } else { None });
     st.exhaustive = false;
     st.finish();
 }
